@@ -953,6 +953,14 @@ pub fn run_c08(tier: Tier) -> i32 {
         ScenCfg { prop: "C08".into(), max_conns: 3, max_calls: 4, max_events: tier.pick(8, 9), bursts: leaving, faults: vec![Fault::WriteError, Fault::Eof], max_faults: 1, closes: false, cuts: false, short_reads: false, delay_polls: false, write_fault_on_stream: true },
         0,
     ));
+    // calls (and replies) of 5 KB: the receive buffer grows some twenty times for one call, other
+    // clients' calls arrive meanwhile
+    let sizes: Vec<Vec<CK>> = vec![vec![CK::P], vec![CK::H], vec![CK::H, CK::P], vec![CK::B, CK::H]];
+    plan.push((
+        "2conns/4calls/6events/5KB-calls+dev",
+        ScenCfg { prop: "C08".into(), max_conns: 2, max_calls: 4, max_events: tier.pick(6, 7), bursts: sizes, faults: vec![], max_faults: 0, closes: false, cuts: true, short_reads: true, delay_polls: true, write_fault_on_stream: false },
+        tier.pick(1, 2),
+    ));
     run_plan("C08", tier, RULE, base_assumptions(), &["pipelined-burst", "oneway-call", "burst-cut-mid-frame", "several-events-before-a-poll", "fault-with-other-connections-live"], plan)
 }
 
